@@ -267,3 +267,77 @@ package j5schema
 //@   |   && as(*schema_j5pb.Field_Date, scalarProto(result0)).Date.Rules.Maximum == dateExt(ext).Rules.Maximum
 //@   |   && as(*schema_j5pb.Field_Date, scalarProto(result0)).Date.Rules.ExclusiveMinimum == dateExt(ext).Rules.ExclusiveMinimum
 //@   |   && as(*schema_j5pb.Field_Date, scalarProto(result0)).Date.Rules.ExclusiveMaximum == dateExt(ext).Rules.ExclusiveMaximum
+
+// ---- export to the source-API form and re-import lose nothing (C15): enum and property kernels -----
+// Import copies every member of the serialisable form, export writes every member back: stated as
+// field-preservation postconditions on both directions, so that export(import(d)) carries d's
+// members (the composition is on paper; each half is checked). Map- and slice-typed members are
+// carried by reference.
+//@ func (*EnumOption).ToJ5EnumValue
+//@   requires eo != nil
+//@   ensures result != nil && result.Name == eo.name && result.Number == eo.number && result.Description == eo.description && result.Info == eo.Info
+//@ func (*Package).enumSchemaFromDesc
+//@   requires sch != nil && (forall i int {sch.Options[i]} :: 0 <= i && i < len(sch.Options) ==> sch.Options[i] != nil)
+//@   ensures head: result != nil && result.NamePrefix == sch.Prefix && result.name == sch.Name && result.description == sch.Description && result.pkg == pkg
+//@   ensures info: result.InfoFields == sch.Info
+//@   ensures count: len(result.Options) == len(sch.Options)
+//@   ensures options: forall i int {result.Options[i]} :: 0 <= i && i < len(sch.Options) ==> result.Options[i] != nil && result.Options[i].name == sch.Options[i].Name
+//@   |   && result.Options[i].number == sch.Options[i].Number && result.Options[i].description == sch.Options[i].Description && result.Options[i].Info == sch.Options[i].Info
+//@   loop 0 invariant len(opts) == len(sch.Options) && (len(opts) == 0 || fresh(opts))
+//@   loop 0 invariant forall i int {opts[i]} :: 0 <= i && i < $iter ==> opts[i] != nil && opts[i].name == sch.Options[i].Name
+//@   |   && opts[i].number == sch.Options[i].Number && opts[i].description == sch.Options[i].Description && opts[i].Info == sch.Options[i].Info
+//@ func (*EnumSchema).ToJ5Root
+//@   requires s != nil && (forall i int {s.Options[i]} :: 0 <= i && i < len(s.Options) ==> s.Options[i] != nil)
+//@   ensures shape: result != nil && typeis(result.Type, *schema_j5pb.RootSchema_Enum) && as(*schema_j5pb.RootSchema_Enum, result.Type).Enum != nil
+//@   ensures head: as(*schema_j5pb.RootSchema_Enum, result.Type).Enum.Name == s.name && as(*schema_j5pb.RootSchema_Enum, result.Type).Enum.Description == s.description
+//@   |   && as(*schema_j5pb.RootSchema_Enum, result.Type).Enum.Prefix == s.NamePrefix && as(*schema_j5pb.RootSchema_Enum, result.Type).Enum.Info == s.InfoFields
+//@   ensures count: len(as(*schema_j5pb.RootSchema_Enum, result.Type).Enum.Options) == len(s.Options)
+//@   ensures options: forall i int {as(*schema_j5pb.RootSchema_Enum, result.Type).Enum.Options[i]} :: 0 <= i && i < len(s.Options) ==>
+//@   |   as(*schema_j5pb.RootSchema_Enum, result.Type).Enum.Options[i] != nil && as(*schema_j5pb.RootSchema_Enum, result.Type).Enum.Options[i].Name == s.Options[i].name
+//@   |   && as(*schema_j5pb.RootSchema_Enum, result.Type).Enum.Options[i].Number == s.Options[i].number && as(*schema_j5pb.RootSchema_Enum, result.Type).Enum.Options[i].Info == s.Options[i].Info
+//@   loop 0 invariant len(options) == len(s.Options) && (len(options) == 0 || fresh(options))
+//@   loop 0 invariant forall i int {options[i]} :: 0 <= i && i < $iter ==> options[i] != nil && options[i].Name == s.Options[i].name && options[i].Number == s.Options[i].number && options[i].Info == s.Options[i].Info
+//@   loop 0 invariant forall i int {s.Options[i]} :: 0 <= i && i < len(s.Options) ==> s.Options[i] != nil
+
+// properties: name, flags, description and the proto field path survive both directions
+//@ func (*Package).objectPropertyFromDesc
+//@   requires prop != nil && allPkgsOK()
+//@   ensures kept: result1 == nil ==> result0 != nil && result0.JSONName == prop.Name && result0.Required == prop.Required && result0.ExplicitlyOptional == prop.ExplicitlyOptional
+//@   |   && result0.Description == prop.Description && result0.Parent == parent && len(result0.ProtoField) == len(prop.ProtoField)
+//@   ensures path: result1 == nil ==> (forall i int {result0.ProtoField[i]} :: 0 <= i && i < len(prop.ProtoField) ==> result0.ProtoField[i] == prop.ProtoField[i])
+//@   loop 0 invariant len(protoField) == len(prop.ProtoField) && (len(protoField) == 0 || fresh(protoField))
+//@   loop 0 invariant forall i int {protoField[i]} :: 0 <= i && i < $iter ==> protoField[i] == prop.ProtoField[i]
+//@ func (*ObjectProperty).ToJ5Proto
+//@   requires prop != nil && prop.Schema != nil
+//@   ensures kept: result != nil && result.Name == prop.JSONName && result.Required == prop.Required && result.ExplicitlyOptional == prop.ExplicitlyOptional
+//@   |   && result.Description == prop.Description && len(result.ProtoField) == len(prop.ProtoField)
+//@   ensures path: forall i int {result.ProtoField[i]} :: 0 <= i && i < len(prop.ProtoField) ==> result.ProtoField[i] == prop.ProtoField[i]
+//@   loop 0 invariant len(fieldPath) == len(prop.ProtoField) && (len(fieldPath) == 0 || fresh(fieldPath))
+//@   loop 0 invariant forall i int {fieldPath[i]} :: 0 <= i && i < $iter ==> fieldPath[i] == prop.ProtoField[i]
+//@   loop 0 invariant forall i int {prop.ProtoField[i]} :: 0 <= i && i < len(prop.ProtoField) ==> prop.ProtoField[i] == old(prop.ProtoField[i])
+// objects: name, description, entity marker and any-membership survive import; properties keep their order
+//@ func (*Package).objectSchemaFromDesc
+//@   requires sch != nil && allPkgsOK() && (forall i int {sch.Properties[i]} :: 0 <= i && i < len(sch.Properties) ==> sch.Properties[i] != nil)
+//@   ensures kept: result1 == nil ==> result0 != nil && result0.name == sch.Name && result0.description == sch.Description && result0.Entity == sch.Entity && result0.AnyMember == sch.AnyMember && len(result0.Properties) == len(sch.Properties)
+//@   ensures order: result1 == nil ==> (forall i int {result0.Properties[i]} :: 0 <= i && i < len(sch.Properties) ==> result0.Properties[i] != nil && result0.Properties[i].JSONName == sch.Properties[i].Name)
+//@   loop 0 invariant allPkgsOK() && object != nil && len(object.Properties) == len(sch.Properties) && object.name == sch.Name && object.description == sch.Description && object.Entity == sch.Entity && object.AnyMember == sch.AnyMember
+//@   loop 0 invariant forall i int {object.Properties[i]} :: 0 <= i && i < $iter ==> object.Properties[i] != nil && object.Properties[i].JSONName == sch.Properties[i].Name
+//@   loop 0 invariant forall i int {sch.Properties[i]} :: 0 <= i && i < len(sch.Properties) ==> sch.Properties[i] != nil && sch.Properties[i].Name == old(sch.Properties[i].Name)
+//@   loop 0 invariant sch.Properties == old(sch.Properties) && sch.Name == old(sch.Name) && sch.Description == old(sch.Description) && sch.Entity == old(sch.Entity) && sch.AnyMember == old(sch.AnyMember)
+//@ func (*Package).schemaFromDesc
+//@   opt assumed the per-type copier of field schemas (300 lines, recursion through inline objects) is not under contract: it keeps the package maps well formed and returns a schema or an error
+//@   requires allPkgsOK()
+//@   ensures wf: allPkgsOK()
+//@   ensures nonnil: result1 == nil ==> result0 != nil
+//@ func (*Package).objectPropertyFromDesc
+//@   ensures wf: allPkgsOK()
+//@   frame fresh E:*github.com/pentops/j5/lib/j5schema.ObjectProperty
+//@ func (*ObjectSchema).ToJ5Object
+//@   requires s != nil && (forall i int {s.Properties[i]} :: 0 <= i && i < len(s.Properties) ==> s.Properties[i] != nil && s.Properties[i].Schema != nil)
+//@   ensures kept: result != nil && result.Name == s.name && result.Description == s.description && result.Entity == s.Entity && result.AnyMember == s.AnyMember && len(result.Properties) == len(s.Properties)
+//@   ensures order: forall i int {result.Properties[i]} :: 0 <= i && i < len(s.Properties) ==> result.Properties[i] != nil && result.Properties[i].Name == s.Properties[i].JSONName
+//@   loop 0 invariant len(properties) == $iter && (forall i int {properties[i]} :: 0 <= i && i < $iter ==> properties[i] != nil && properties[i].Name == s.Properties[i].JSONName)
+//@   loop 0 invariant forall i int {s.Properties[i]} :: 0 <= i && i < len(s.Properties) ==> s.Properties[i] != nil && s.Properties[i].Schema != nil && s.Properties[i].JSONName == old(s.Properties[i].JSONName)
+//@   loop 0 invariant s.Properties == old(s.Properties) && s.name == old(s.name) && s.description == old(s.description) && s.Entity == old(s.Entity) && s.AnyMember == old(s.AnyMember)
+//@ func (*ObjectProperty).ToJ5Proto
+//@   frame fresh E:*github.com/pentops/j5/gen/j5/schema/v1/schema_j5pb.ObjectProperty
